@@ -576,11 +576,6 @@ func TestVerifC15(t *testing.T) {
 			out.Fail("stack-setup-failed", fmt.Sprintf("history %d: %v [%s | %s] prioritized=%q", h, err, opts, cfg, opts.Prioritized))
 			continue
 		}
-		if verifTainted(s.lines) {
-			out.Count("skipped-tainted-layout")
-			s.close()
-			continue
-		}
 		// configured prefetch size: around interesting offsets
 		size := int64(len(s.blob))
 		var firsts []int64
